@@ -217,6 +217,17 @@ def entry_points(d, v, tmp):
             written = json.load(f)
         return ("written", written)
 
+    def fs_sink_add_bundle_text_layout():
+        # the same text as another JSON writer lays it out: blanks around ':' and ',', indentation, members in another order
+        root = fs_dir()
+        members = dict(reversed(list(dict(BUN, objects=[dict(d)]).items())))
+        text = "\n  " + json.dumps(members, indent=3, separators=(" , ", " : ")) + "\n"
+        stix2.FileSystemSink(root, allow_custom=True).add(text, version=v)
+        files = [os.path.join(dp, f) for dp, _, fs in os.walk(root) for f in fs]
+        with open(files[0], encoding="utf-8") as f:
+            written = json.load(f)
+        return ("written", written)
+
     def fs_bundlified_get():
         # a file as FileSystemSink(bundlify=True) writes it: the object wrapped in a bundle
         root = fs_dir()
@@ -337,6 +348,7 @@ def entry_points(d, v, tmp):
         eps += [("MemoryStore.add(bundle dict, version)", mem_store_add_bundle_dict, "class"),
                 ("FileSystemSink.add(bundle dict, version)", fs_sink_add_bundle_dict, "written"),
                 ("FileSystemSink.add(bundle JSON text, version)", fs_sink_add_bundle_text, "written"),
+                ("FileSystemSink.add(bundle JSON text in another layout, version)", fs_sink_add_bundle_text_layout, "written"),
                 ("FileSystemSource.get(id, version) [bundlified file]", fs_bundlified_get, "class"),
                 ("FileSystemSource.query(id, version) [bundlified file]", fs_bundlified_query, "class"),
                 ("FileSystemSource.get(id, version) [bundle file with several objects]", fs_bundlified_several_get, "class")]
